@@ -2,9 +2,12 @@ from __future__ import annotations
 
 import os
 import sys
+import threading
 import uuid
+import weakref
 from functools import partial
 from hashlib import sha256
+from itertools import count
 from os.path import dirname
 from typing import TYPE_CHECKING
 from typing import Any
@@ -72,6 +75,38 @@ if hasattr(os, 'register_at_fork'):
     os.register_at_fork(after_in_child=_new_process_token)
 
 
+# Objects that nothing but their identity describes are numbered: an
+# address would not do, because the next object may be put where a dead
+# one was.
+_identities: dict[int, tuple[int, Any]] = {}
+_identities_lock = threading.Lock()
+_identities_count = count(1)
+
+
+def _identity(value: Any) -> str:
+    """Name an object: unique in this process for as long as it runs
+    and, by way of the token, among processes."""
+
+    key = id(value)
+    with _identities_lock:
+        entry = _identities.get(key)
+        if entry is None or entry[1]() is not value:
+            def forget(ref: Any, key: int = key) -> None:
+                entry = _identities.get(key)
+                if entry is not None and entry[1] is ref:
+                    del _identities[key]
+
+            ref: Any
+            try:
+                ref = weakref.ref(value, forget)
+            except TypeError:
+                # (kept alive, then: nothing else ever gets its address)
+                def ref(value: Any = value) -> Any:
+                    return value
+            entry = _identities[key] = (next(_identities_count), ref)
+    return "{}:{}".format(_PROCESS_TOKEN, entry[0])
+
+
 def _stable_repr(value: Any) -> str:
     """Process-independent representation of a configuration value."""
 
@@ -92,18 +127,15 @@ def _stable_repr(value: Any) -> str:
         if '<locals>' in name or '<lambda>' in name:
             # Made by a function, or anonymous: the name does not
             # identify it (two classes returned by one factory have the
-            # same), only the object itself does - within this process.
-            # Another process may well have another object at the same
-            # address, hence the per-process token.
-            return "{}.{}@{}:{:x}".format(
-                module, name, _PROCESS_TOKEN, id(value))
+            # same), only the object itself does.
+            return "{}.{}@{}".format(module, name, _identity(value))
         return "{}.{}".format(module, name)
     # Anything else (an instance of some class, a partial): a default
-    # representation carries an address, which means something within
-    # this process only.
+    # representation carries an address, which is no more than a hint
+    # at which object it is.
     text = repr(value)
     if ' at 0x' in text:
-        text = "{}@{}".format(text, _PROCESS_TOKEN)
+        text = "{}@{}".format(text, _identity(value))
     return text
 
 
